@@ -89,7 +89,7 @@ func vfC11Gen(rt *rapid.T) vfC11Case {
 				return vfCOp{Op: "write"}
 			}
 		})
-		c.Progs = append(c.Progs, rapid.SliceOfN(opGen, 3, 30).Draw(rt, "prog"))
+		c.Progs = append(c.Progs, vfListOf(rt, "prog", opGen, 3, 30))
 	}
 	c.Conf = vfStoreConf{VecKind: "flat", Metric: c.Metric, Dim: c.Dim, HasText: true, HasMeta: true, CompThr: 4}
 	c.Conf.MemLimit = rapid.SampledFrom([]int64{1, 400, 900, 3000}).Draw(rt, "memtable_limit")
